@@ -29,6 +29,9 @@ func (fv *FV) query(o *Obligation, forCVC5 bool) string {
 	sb.WriteString(fv.typeFacts())
 	sb.WriteString(fv.axiomText())
 	for _, l := range o.script.lines() {
+		if strings.HasPrefix(l, ";;OBL") {
+			continue
+		}
 		sb.WriteString(l)
 		sb.WriteByte('\n')
 	}
@@ -59,7 +62,10 @@ func (fv *FV) axiomText() string {
 			if done[ax] {
 				continue
 			}
-			if !fv.mentionsUsed(ax.Clause.E) {
+			if !fv.mentionsUsed(ax.Clause.E) && mentionsAnySpec(fv.eng.specs, ax.Clause.E) {
+				continue
+			}
+			if !mentionsAnySpec(fv.eng.specs, ax.Clause.E) && ax.PkgName != "" && ax.PkgName != funcPkgName(fv.fn) {
 				continue
 			}
 			done[ax] = true
@@ -319,6 +325,74 @@ func dischargeAll(fvs []*FV, filter func(*Obligation) bool, timeout time.Duratio
 	for _, fv := range fvs {
 		fv.axiomText()
 	}
+	// phase 0: vacuity guard - the entry assumptions (prelude, axioms, type invariants, requires)
+	// of every function must not be refutable
+	{
+		var vwg sync.WaitGroup
+		sem := make(chan struct{}, workers)
+		for _, fv := range fvs {
+			if len(fv.outside) > 0 || fv.entryScript == nil {
+				continue
+			}
+			fv := fv
+			vwg.Add(1)
+			sem <- struct{}{}
+			go func() {
+				defer vwg.Done()
+				defer func() { <-sem }()
+				o := &Obligation{script: fv.entryScript, goal: tFalse}
+				r := runSolver(context.Background(), solvers[0], fv.query(o, false), 2*time.Second)
+				if r.status == "unsat" {
+					fv.vacuous = true
+				}
+				r2 := runSolver(context.Background(), solvers[2], fv.query(o, true), 3*time.Second)
+				if r2.status == "unsat" {
+					fv.vacuous = true
+				}
+			}()
+		}
+		vwg.Wait()
+		for _, fv := range fvs {
+			if fv.vacuous {
+				fv.outsidef("VACUOUS: the entry assumptions of %s are contradictory", fv.short)
+				for _, o := range fv.obls {
+					o.Status = "outside"
+				}
+			}
+		}
+		var keep []job
+		for _, j := range jobs {
+			if !j.fv.vacuous {
+				keep = append(keep, j)
+			}
+		}
+		jobs = keep
+	}
+	// phase 1: batched incremental solving, one solver process per path leaf
+	if !all {
+		batchSolve(fvs, filter, workers)
+		var rest []job
+		for _, j := range jobs {
+			if j.o.Status != "unsat" {
+				rest = append(rest, j)
+			}
+		}
+		jobs = rest
+	}
+	var failedNames sync.Map
+	// one instance per name first, so that a failing name is detected early
+	sort.SliceStable(jobs, func(a, b int) bool { return false })
+	seenName := map[string]int{}
+	var first, later []job
+	for _, j := range jobs {
+		if seenName[j.o.Name] == 0 {
+			first = append(first, j)
+		} else {
+			later = append(later, j)
+		}
+		seenName[j.o.Name]++
+	}
+	jobs = append(first, later...)
 	var wg sync.WaitGroup
 	ch := make(chan job)
 	for i := 0; i < workers; i++ {
@@ -326,7 +400,14 @@ func dischargeAll(fvs []*FV, filter func(*Obligation) bool, timeout time.Duratio
 		go func() {
 			defer wg.Done()
 			for j := range ch {
+				if _, bad := failedNames.Load(j.o.Name); bad && !all {
+					j.o.Status = "skipped"
+					continue
+				}
 				j.fv.discharge(j.o, timeout, all)
+				if j.o.Status != "unsat" {
+					failedNames.Store(j.o.Name, true)
+				}
 			}
 		}()
 	}
@@ -399,4 +480,128 @@ func dumpQuery(dir string, fv *FV, o *Obligation, idx int) string {
 	p := filepath.Join(dir, fmt.Sprintf("%s_%d.smt2", smtName(o.Name), idx))
 	os.WriteFile(p, []byte(fv.query(o, false)), 0o644)
 	return p
+}
+
+
+// batchSolve: for every path leaf, one incremental z3 run that checks the obligations first
+// encountered on that path. Only "unsat" answers are kept; everything else is re-run individually.
+func batchSolve(fvs []*FV, filter func(*Obligation) bool, workers int) {
+	type batch struct {
+		fv   *FV
+		text string
+		ids  []int
+	}
+	var batches []batch
+	for _, fv := range fvs {
+		if len(fv.outside) > 0 || fv.vacuous {
+			continue
+		}
+		assigned := map[int]bool{}
+		var head strings.Builder
+		head.WriteString(preludeBase)
+		fv.decls.Print(&head)
+		head.WriteString(fv.typeFacts())
+		head.WriteString(fv.axiomText())
+		hs := head.String()
+		for _, leaf := range fv.leaves {
+			var sb strings.Builder
+			var ids []int
+			for _, l := range leaf.lines() {
+				if strings.HasPrefix(l, ";;OBL ") {
+					id := 0
+					fmt.Sscanf(l, ";;OBL %d", &id)
+					if assigned[id] {
+						continue
+					}
+					assigned[id] = true
+					o := fv.obls[id]
+					if filter != nil && !filter(o) {
+						continue
+					}
+					ids = append(ids, id)
+					fmt.Fprintf(&sb, "(push 1)\n(assert (not %s))\n(check-sat)\n(pop 1)\n", o.goal.S)
+					continue
+				}
+				sb.WriteString(l)
+				sb.WriteByte('\n')
+			}
+			if len(ids) > 0 {
+				batches = append(batches, batch{fv: fv, text: hs + sb.String(), ids: ids})
+			}
+		}
+	}
+	var wg sync.WaitGroup
+	ch := make(chan batch)
+	for i := 0; i < workers; i++ {
+		wg.Add(1)
+		go func() {
+			defer wg.Done()
+			for b := range ch {
+				budget := time.Duration(2+len(b.ids)) * time.Second
+				ctx, cancel := context.WithTimeout(context.Background(), budget)
+				cmd := exec.CommandContext(ctx, "z3-new", "-smt2", "-in", "-t:1500")
+				cmd.Stdin = strings.NewReader(b.text)
+				var out bytes.Buffer
+				cmd.Stdout = &out
+				t0 := time.Now()
+				_ = cmd.Run()
+				cancel()
+				secs := time.Since(t0).Seconds()
+				var answers []string
+				for _, l := range strings.Split(out.String(), "\n") {
+					l = strings.TrimSpace(l)
+					if l == "sat" || l == "unsat" || l == "unknown" || l == "timeout" {
+						answers = append(answers, l)
+					} else if strings.HasPrefix(l, "(error") {
+						// an error poisons the rest of this batch
+						break
+					}
+				}
+				for i, id := range b.ids {
+					o := b.fv.obls[id]
+					o.Secs += secs / float64(len(b.ids))
+					if i < len(answers) && answers[i] == "unsat" {
+						o.Status = "unsat"
+						o.Solver = "z3-new(batch)"
+						o.SMTLen = len(b.text)
+					}
+				}
+			}
+		}()
+	}
+	for _, b := range batches {
+		ch <- b
+	}
+	close(ch)
+	wg.Wait()
+}
+
+func mentionsAnySpec(sp *Specs, e Expr) bool {
+	found := false
+	var walk func(Expr)
+	walk = func(e Expr) {
+		switch x := e.(type) {
+		case *ECall:
+			if ps := sp.Preds[x.Fn]; ps != nil && ps.Body == nil {
+				found = true
+			}
+			for _, a := range x.Args {
+				walk(a)
+			}
+		case *EBin:
+			walk(x.L)
+			walk(x.R)
+		case *EUn:
+			walk(x.X)
+		case *ESel:
+			walk(x.X)
+		case *EIndex:
+			walk(x.X)
+			walk(x.I)
+		case *EQuant:
+			walk(x.Body)
+		}
+	}
+	walk(e)
+	return found
 }
